@@ -131,8 +131,21 @@ func (g *pgen) goal(pi int, nv *int, maxv, depth int) J {
 		*nv++
 		return jt.C("=", jt.V(*nv), rhs) // a fresh variable on the left
 	case k == 8:
+		if g.r.Intn(3) == 0 && *nv > 0 {
+			// a list built in pieces: V = [t|W], W = [u] (the same term as V = [t,u], another representation at run time)
+			v := 1 + g.r.Intn(*nv)
+			*nv++
+			w := *nv
+			return jt.C(",", jt.C("=", jt.V(v), jt.List([]J{g.term(nv, maxv, 1, false)}, jt.V(w))), jt.C("=", jt.V(w), jt.List([]J{g.term(nv, maxv, 0, false)}, nil)))
+		}
 		return jt.C("=", g.term(nv, maxv, 1, false), g.term(nv, maxv, 1, false))
 	case k == 9 && depth > 0:
+		switch g.r.Intn(4) {
+		case 0: // left-nested, twice
+			return jt.C(";", jt.C(";", jt.C(";", g.goal(pi, nv, maxv, 0), g.goal(pi, nv, maxv, 0)), g.goal(pi, nv, maxv, 0)), g.goal(pi, nv, maxv, 0))
+		case 1: // an if-then-else on the left of a disjunction
+			return jt.C(";", jt.C(";", jt.C("->", g.goal(pi, nv, maxv, 0), g.goal(pi, nv, maxv, 0)), g.goal(pi, nv, maxv, 0)), g.goal(pi, nv, maxv, 0))
+		}
 		return jt.C(";", g.goal(pi, nv, maxv, depth-1), g.goal(pi, nv, maxv, depth-1))
 	case k == 10 && depth > 0:
 		p := g.targetPred(pi)
